@@ -110,6 +110,23 @@ def records(data, chunk, limit_s=5):
         DiffXReader._read_until.__defaults__ = old
 
 
+def records_buffered(data, bufsize, limit_s=5):
+    """Records read through a buffered stream (what open() returns): the
+    stream type is one more way the same bytes can be chunked."""
+    import signal as _s
+    _s.signal(_s.SIGALRM, _alarm)
+    _s.alarm(limit_s)
+    try:
+        try:
+            fp = io.BufferedReader(io.BytesIO(data), buffer_size=bufsize)
+            return [sorted((k, repr(v)) for k, v in s.items())
+                    for s in DiffXReader(fp)]
+        except Exception as e:  # noqa
+            return ['EXC %s %s' % (type(e).__name__, e)]
+    finally:
+        _s.alarm(0)
+
+
 def pad_first_header(data, pad):
     # lengthen the first header with an unknown option of total size `pad`
     first, rest = data.split(b'\n', 1)
@@ -141,6 +158,17 @@ def bounded(seed, tier):
                 return {'evaluations': evals + 1, 'failure': {
                     'file': g.hex(), 'chunk_size': 96, 'pad': pad,
                     'got': base[-1], 'expected': 'termination'}}
+            if pad % 21 == 0:
+                # the same bytes through a buffered stream (as from open())
+                for bs in (1, 7, 64, 97, 8192):
+                    evals += 1
+                    distinct.add((hash(g), 'buffered', bs))
+                    got = records_buffered(g, bs)
+                    if got != base:
+                        return {'evaluations': evals, 'failure': {
+                            'file': g.hex(), 'chunk_size': 96, 'pad': pad,
+                            'buffered': bs, 'got': repr(got)[:500],
+                            'expected': repr(base)[:500]}}
             for ch in chunks:
                 evals += 1
                 distinct.add((hash(g), ch))
@@ -163,6 +191,8 @@ def main():
         w = req['witness']
         g = bytes.fromhex(w['file'])
         got, exp = records(g, w['chunk_size']), records(g, 96)
+        if 'buffered' in w:
+            got = records_buffered(g, w['buffered'])
         out = {'ok': got == exp, 'got': repr(got)[:800],
                'expected': repr(exp)[:800]}
     elif op == 'replay':
